@@ -16,6 +16,11 @@ from sim import seam
 
 _real_open = io.open
 
+# bumped whenever the file namespace of a mount changes (a file is opened for writing,
+# replaced, renamed, removed): the write-point profile of the C11 engine treats the file
+# system as state that outlives a call
+FS_EPOCH = [0]
+
 ERRNOS = {'EIO': _errno.EIO, 'ENOSPC': _errno.ENOSPC, 'ENOENT': _errno.ENOENT,
           'EACCES': _errno.EACCES, 'EMFILE': _errno.EMFILE, 'EINTR': _errno.EINTR}
 
@@ -270,6 +275,8 @@ class Mount:
             raise FileExistsError(_errno.EEXIST, os.strerror(_errno.EEXIST), p)
         if p not in self.files:
             self.files[p] = SimFile()
+        if any(c in m for c in 'wax+'):
+            FS_EPOCH[0] += 1
         if any(c in m for c in 'wax+') and not os.path.exists(p):
             try:
                 _real_open(p, 'ab').close()     # the name exists from now on
@@ -310,6 +317,7 @@ class Mount:
         return p if p.startswith(self.dir + os.sep) else None
 
     def _replace(self, src, dst, **kw):
+        FS_EPOCH[0] += 1
         a, b = self._inside(src), self._inside(dst)
         self._real_replace(src, dst, **kw)      # raises as the OS would
         if a is not None and a in self.files:
@@ -320,6 +328,7 @@ class Mount:
             self.files.pop(b, None)             # replaced by a file the device never saw
 
     def _rename(self, src, dst, **kw):
+        FS_EPOCH[0] += 1
         a, b = self._inside(src), self._inside(dst)
         self._real_rename(src, dst, **kw)
         if a is not None and a in self.files:
@@ -330,6 +339,7 @@ class Mount:
             self.files.pop(b, None)
 
     def _unlink(self, path, **kw):
+        FS_EPOCH[0] += 1
         a = self._inside(path)
         self._real_unlink(path, **kw)
         if a is not None:
